@@ -151,7 +151,7 @@ func (s *scheduler) pickNext(cur *gor) *gor {
 	for {
 		r := s.runnable()
 		if len(r) > 0 {
-			if len(r) > 1 && s.e.Cfg.SchedExplore >= 0 {
+			if len(r) > 1 && s.e.Cfg.SchedExplore >= 0 && !s.e.Cfg.SchedDelay {
 				return r[s.e.choose(len(r), "sched", nil)]
 			}
 			// canonical: round robin after cur
@@ -207,7 +207,7 @@ func (s *scheduler) yield(g *gor) {
 		return
 	}
 	var next *gor
-	if s.e.Cfg.SchedExplore >= 0 {
+	if s.e.Cfg.SchedExplore >= 0 && !s.e.Cfg.SchedDelay {
 		next = r[s.e.choose(len(r), "yield", nil)]
 	} else {
 		for _, x := range r {
@@ -272,7 +272,7 @@ func (s *scheduler) drain(g *gor) {
 				return
 			}
 			next := others[0]
-			if len(others) > 1 {
+			if len(others) > 1 && !s.e.Cfg.SchedDelay {
 				next = others[s.e.choose(len(others), "drain", nil)]
 			}
 			s.switchTo(g, next)
